@@ -158,13 +158,20 @@ def main(prop, tier='quick', replay=None, selftest=False, runs=None,
     exit_code = 0
     known_lines = []
     new_sigs = []
+    known_groups = {}
     for sig, lst in sorted(by_sig.items()):
         k = known_match(known, prop, sig)
         if k:
-            known_lines.append('KNOWN-FINDING: property=%s %s [%s; %d runs]'
-                               % (prop, k['what'], sig, len(lst)))
+            g = known_groups.setdefault(k['signature'], [k, [], 0])
+            g[1].append(sig)
+            g[2] += len(lst)
         else:
             new_sigs.append(sig)
+    for ksig, (k, sigs, nruns) in sorted(known_groups.items()):
+        what = k['what'] if len(k['what']) < 300 else k['what'][:297] + '...'
+        known_lines.append('KNOWN-FINDING: property=%s %s [signature %s; '
+                           '%d runs; %d manifestations]'
+                           % (prop, what, ksig, nruns, len(sigs)))
     for ln in known_lines:
         print(ln)
     reported = []
